@@ -84,6 +84,14 @@ def run(ctx):
 
             rc, ra = resets(fc_), resets(fa_)
             ctx.check("write-group-reset-parity", f"{rel}:{q}.abort_write_group", rc <= ra, f"state reset by commit_write_group {sorted(rc)} is also reset by abort_write_group {sorted(ra)}", construct=str(sorted(rc - ra)), message=f"{q}.commit_write_group resets {sorted(rc - ra)} but abort_write_group does not: after an aborted write group the next one starts with stale per-group state (e.g. keys believed to be written are never written again) and this backend answers differently from the others")
+    # ---- lookup_git_sha is multi-valued in every backend (the same object can be recorded under several keys) -------
+    for rel, q in [(rel_, q_) for rel_, q_ in _subclasses(repo, "GitShaMap")]:
+        f = repo.module(rel).get(f"{q}.lookup_git_sha")
+        if f is None:
+            continue
+        ys = [n for n in ast.walk(f) if isinstance(n, (ast.Yield, ast.YieldFrom))]
+        multi = any(isinstance(n, ast.YieldFrom) for n in ys) or any(isinstance(l_, (ast.For, ast.While)) and any(isinstance(n, ast.Yield) for n in ast.walk(l_)) for l_ in ast.walk(f))
+        ctx.check("lookup-git-sha-multivalued", f"{rel}:{q}.lookup_git_sha", bool(ys) and multi, f"{q}.lookup_git_sha can yield every record stored for the sha (yield inside a loop / yield from)", message=f"{q}.lookup_git_sha yields at most one record per git sha: when the same blob or tree is recorded under several (file id, revision) keys the other backends answer with all of them, this one with the first only")
     ups = _subclasses(repo, "CacheUpdater")
     ctx.require(len(ups) >= 4, f"only {len(ups)} CacheUpdater classes found (hand-confirmed: 4)")
     for rel, q in ups:
